@@ -52,7 +52,7 @@ Chk(o, cond, prop, rule, detail) == IF cond THEN o ELSE V(o, prop, rule, detail)
 
 \* `let` operations are local and unobservable: the observer's position skips them
 RECURSIVE SkipLets(_, _)
-SkipLets(ops, i) == IF i <= Len(ops) /\ ops[i].op \in {"let", "mint"} THEN SkipLets(ops, i + 1) ELSE i
+SkipLets(ops, i) == IF i <= Len(ops) /\ ops[i].op \in {"let", "mint", "selfpid"} THEN SkipLets(ops, i + 1) ELSE i
 PcAt(o, p) == IF o.script[p] = 0 THEN o.pc[p] ELSE SkipLets(Scripts[o.script[p]], o.pc[p])
 OpAt(o, p) ==
   IF o.script[p] = 0 \/ PcAt(o, p) > Len(Scripts[o.script[p]]) THEN [op |-> "none"]
